@@ -1,6 +1,6 @@
 (* C19: create_from_info (get_info M) reproduces M's kind, terms, name, mapping, ancilla count and constraints *)
 From QV.Model Require Import Base Matrix Arith Expr Extrema Sat PCBO Info.
-From QV.Proofs Require Import BaseProofs KeyProofs ArithProofs TempRange InvProofs RefreshProofs.
+From QV.Proofs Require Import BaseProofs KeyProofs ArithProofs TempRangeQ InvProofs RefreshProofs.
 From Coq Require Import Lia Lqa.
 Open Scope Q_scope.
 
